@@ -15,6 +15,20 @@ isError, failure, why, a %-format AST (literals with %%, %(key)<width>{s,r,a,d,u
 receive the whole dict, a trailing lone %), str / bytes / None / hostile `format` — with the same tape of outcomes;
 tied to Twisted.Log.Format.Legacy (result kind, exact text with the fallback families and repr(eventDict)
 canonicalised to markers, order of hostile calls).
+
+Variants of every scripted case (mutation audit M55):
+  "hk"  — typed hostile values: the hostile event values are instances of subclasses of str / bytes / Failure / Exception
+          (classes HS, HB, HF, HE; a kind string is cycled over the values in creation order) with the same tape-driven
+          special methods.  Model-compared: the model has one hostile value, so the tie checks that no code path keys on
+          the nominal type of a value (`isinstance(f, Failure)` fast paths, "repr of a str cannot fail", …).
+  "y" / "B" — the bytes object b"\\xff" as an event value (log_system, log_level, log_namespace, log_failure, log_time, extras,
+          flattened values, legacy message / failure / why / extras) and as what a hostile method returns.  Model-compared
+          (`Val.bytes`, `Outcome.bytes`): str() = repr() = "b'\\xff'", format with a non-empty spec / attribute / index / call fail.
+  "res" — result variants, oracle only: "sub" = every text (text values, and texts returned by str / repr / format /
+          getattr / getTraceback / formatTime) is an instance of a str subclass whose own format / str / repr raise;
+          "bytes" = undecodable bytes stand where a text or None was expected (getTraceback / str results, `why`, …).
+Wild values also include genuine Failures that cannot render themselves (a Failure subclass, `Failure.__new__`, Failures
+rebuilt by twisted.logger._json.failureFromJSON from a damaged record) and objects whose getTraceback returns bytes.
 """
 import json
 import linecache
@@ -30,15 +44,28 @@ HEADLINE = "TwistedProps.C55.eventAsText_total"
 RULE = ("scripted events: format-string ASTs (literals, fields with .attr/.attr()/[idx] chains, key() calls, "
         "!r/!s/!a/bad conversions, plain/nested/too-deep specs, lone '}', positional fields), str/bytes/undecodable/"
         "hostile/None/absent log_format, flattened events, log_time/log_system/log_level/log_namespace/log_failure "
-        "each absent/None/text/hostile, custom formatTime callables, and a tape of hostile outcomes (text/None/object/"
-        "raise of 9 classes incl. KeyboardInterrupt, SystemExit, GeneratorExit, BaseException subclass; exceptions "
+        "each absent/None/text/bytes b'\\xff'/hostile, custom formatTime callables, and a tape of hostile outcomes (text/None/object/"
+        "returns the bytes b'\\xff'/raise of 9 classes incl. KeyboardInterrupt, SystemExit, GeneratorExit, BaseException subclass; exceptions "
         "whose str() raises); wild events with real Failure/LogLevel/float/garbage formats; scripted legacy event dicts for "
         "twisted.python.log.textFromEventDict (message tuple, isError/failure/why, %-format ASTs with keyed/key-less items, "
         "widths, s/r/a/number/unsupported conversions, lone '%', str/bytes/None/hostile format; same tapes) tied to the model, "
         "plus wild legacy dicts with realistic objects (oracle only); "
+        "30 % of the scripted cases with typed hostile values (instances of str / bytes / Failure / Exception subclasses, "
+        "12 kind strings cycled over the values; still model-compared), 12 % with result variants (oracle only): texts as "
+        "str-subclass instances whose format/str/repr raise, or undecodable bytes where a text / None was expected; wild "
+        "values incl. Failure subclasses / attribute-less Failures / Failures rebuilt from damaged JSON whose getTraceback "
+        "raises and getTraceback returning bytes; "
         "distinct = (entry point, result kind, fallback family, sites touched, branch/conversions, raised classes on the tape)")
 ASSUMES = [
-    "the event is a real dict with str keys (LogEvent); hostile behaviour lives in the values and in what their methods return",
+    "the event is a real dict with str keys (LogEvent); hostile behaviour lives in the values and in what their methods return "
+    "(a method that mutates the event being formatted, e.g. a __repr__ adding a key while formatUnformattableEvent iterates "
+    "event.items(), is outside the statement's 'raise or return non-text')",
+    "typed hostile values (hk) keep a plain H at log_format, log_time and the legacy format, where the code legitimately "
+    "branches on str / bytes / float; objects returned by hostile methods ('O' outcomes) are plain H; the str / bytes content "
+    "of HS / HB is non-empty (truthy like a plain object) and HB's bytes are undecodable (reflect.safe_str falls through to str())",
+    "result variants (res) are judged by the oracle only (returns text / never raises): the model has no str-subclass text, "
+    "and its one bytes value is b'\\xff' (value code 'y', outcome 'B': model-compared in the ordinary cases; undecodable, so "
+    "reflect.safe_str falls through to str(); Python runs without -b, so str(bytes) is its repr)",
     "texts on the tape / in values come from an alphabet without quote characters, digits and format-spec characters, so "
     "repr(str) and str.__format__ are as transcribed (strRepr, strFormat); checked by the tie on every run",
     "twisted.python.reflect.safe_repr/safe_str, Failure() and str(Failure) do not raise (they catch BaseException); "
@@ -68,7 +95,10 @@ MANIFEST = {
             "event reaches _safeFormat and the first `fmtString % fmtDict` raises KeyboardInterrupt, which `except "
             "KeyboardInterrupt: raise` lets through (textFromEventDict_raises_iff, _total, _total_of_noKI_tape, "
             "_counterexample); exception-flow model tied to _format.py and python/log.py by differential runs comparing "
-            "result, text and the order of hostile calls.",
+            "result, text and the order of hostile calls — also when the hostile values are instances of str / bytes / Failure / "
+            "Exception subclasses (the model's single hostile value stands for every nominal type).  Oracle-only on the real code: "
+            "texts that are str-subclass instances with raising format/str/repr, undecodable bytes where text or None is expected, "
+            "genuine Failures whose getTraceback raises.",
     "note": "trusts Lean kernel, the hand-written exception-flow model (differentially tied incl. call order), CPython str.format "
             "internals as transcribed from string.Formatter, reflect.safe_repr/safe_str and Failure.__str__ being total",
     "technique": "Lean 4 proof (exception-monad model, every oracle call universally quantified via a tape) + differential tie",
@@ -111,9 +141,31 @@ def make_exc(ci, strspec):
     return e
 
 
+class SubText(str):
+    """a genuine text, but an instance of a str subclass whose own format / str / repr raise (result variant "sub")"""
+
+    def __format__(self, spec):
+        raise ValueError("SubText.__format__")
+
+    def __str__(self):
+        raise KeyError("SubText.__str__")
+
+    def __repr__(self):
+        raise HostileBase()
+
+
+BYTES = b"\xff"      # the modelled bytes value (`Val.bytes` / `Outcome.bytes`): undecodable, str() == repr() == "b'\\xff'"
+
+
+def as_bytes(t):
+    """result variant "bytes": undecodable bytes where a text was expected"""
+    return t.encode("utf-8") + b"\xff"
+
+
 class Tape:
-    def __init__(self, outcomes):
+    def __init__(self, outcomes, kinds="o", res=None):
         self.o, self.i, self.trace = list(outcomes), 0, []
+        self.kinds, self.made, self.res = kinds or "o", 0, res
 
     def ans(self, letter):
         self.trace.append(letter)
@@ -123,12 +175,24 @@ class Tape:
         else:
             o = ["T", ""]
         if o[0] == "T":
-            return o[1]
+            return self.text(o[1])
         if o[0] == "N":
-            return None
+            return b"\xfe" if self.res == "bytes" else None
         if o[0] == "O":
             return H(self)
+        if o[0] == "B":
+            return BYTES
         raise make_exc(o[1], o[2])
+
+    def text(self, t):
+        """a text value / a text returned by a hostile method, as the result variant of the case realises it"""
+        return SubText(t) if self.res == "sub" else as_bytes(t) if self.res == "bytes" else t
+
+    def hostile(self):
+        """the next hostile event value: an instance of the class the case's kind string names (cycled)"""
+        k = self.kinds[self.made % len(self.kinds)]
+        self.made += 1
+        return KINDS[k](self)
 
 
 class H:
@@ -159,6 +223,35 @@ class H:
 
     def getTraceback(self, *a, **kw):
         return self._t.ans("b")
+
+
+# Typed hostile values: the same tape-driven special methods on an instance of a subclass of a type the
+# formatting code (or a helper) might test for — str, bytes, Failure, Exception.  Every special method the
+# code may use is H's (first in the MRO), the content of the str / bytes part is never looked at by correct
+# code (non-empty, so truthiness is that of a plain object; the bytes are undecodable, so reflect.safe_str
+# falls through to str()).  The Lean model has ONE hostile value (`Val.hostile`): the tie checks that the
+# nominal type makes no difference.
+
+class HS(H, str):
+    def __new__(cls, tape):
+        return str.__new__(cls, "hs")
+
+
+class HB(H, bytes):
+    def __new__(cls, tape):
+        return bytes.__new__(cls, b"\xff")
+
+
+class HF(H, Failure):
+    pass
+
+
+class HE(H, Exception):
+    def __new__(cls, tape):
+        return Exception.__new__(cls)
+
+
+KINDS = {"o": H, "s": HS, "b": HB, "f": HF, "e": HE}
 
 
 # ---------------------------------------------------------------------------------------- rendering
@@ -233,7 +326,7 @@ def m_exc(ci, sp):
 
 
 def m_outcome(o):
-    return "T" + enc(o[1]) if o[0] == "T" else o[0] if o[0] in "NO" else "R" + m_exc(o[1], o[2])
+    return "T" + enc(o[1]) if o[0] == "T" else o[0] if o[0] in "NOB" else "R" + m_exc(o[1], o[2])
 
 
 def m_key(k):
@@ -272,8 +365,8 @@ def norm(c):
 
 
 def model_line(c):
-    if c.get("wild"):
-        return None
+    if c.get("wild") or c.get("res"):
+        return None         # result variants (str-subclass / bytes results and values): oracle only
     if c["entry"] == "leg":
         return leg_model_line(c)
     c = norm(c)
@@ -294,12 +387,15 @@ def model_line(c):
 
 # ---------------------------------------------------------------------------------------- running the real code
 
-def py_val(v, tape):
+def py_val(v, tape, typed=True):
+    """typed=False: positions where the code legitimately branches on the type (log_format, log_time, legacy format)"""
     if v == "n":
         return None
     if v == "h":
-        return H(tape)
-    return v[1]
+        return tape.hostile() if typed else H(tape)
+    if v == "y":
+        return BYTES
+    return tape.text(v[1])
 
 
 def flat_keys(segs):
@@ -325,11 +421,11 @@ def build_event(c, tape):
     elif f[0] == "B":
         ev["log_format"] = b"\xff{k0}"
     elif f[0] == "o":
-        ev["log_format"] = py_val(f[1], tape)
+        ev["log_format"] = py_val(f[1], tape, typed=False)
     t = c["time"]
     if t != "_":
         ev["log_time"] = {"n": None, "good": 1.5e9, "nan": float("nan"), "huge": 1e300, "big": 1e18}[t] \
-            if isinstance(t, str) else py_val(t[1], tape)
+            if isinstance(t, str) else py_val(t[1], tape, typed=False)
     for key, name in (("system", "log_system"), ("level", "log_level"), ("ns", "log_namespace"), ("failure", "log_failure")):
         if c[key] != "_":
             ev[name] = py_val(c[key], tape)
@@ -402,7 +498,7 @@ def call_entry(c, ev, tape):
 
 def observe(c, patched):
     """→ (kind, value, trace, site)"""
-    tape = Tape(c["tape"])
+    tape = Tape(c["tape"], c.get("hk"), c.get("res"))
     ev = build_event(c, tape)
     real = F.formatUnformattableEvent
     if patched:
@@ -544,7 +640,7 @@ def build_legacy(c, tape, cls):
     elif f[0] == "b":
         ev["format"] = render_pct(f[1]).encode("utf-8")
     elif f[0] == "o":
-        ev["format"] = py_val(f[1], tape)
+        ev["format"] = py_val(f[1], tape, typed=False)
     for key in ("failure", "why"):
         if c[key] != "_":
             ev[key] = py_val(c[key], tape)
@@ -554,7 +650,7 @@ def build_legacy(c, tape, cls):
 
 
 def observe_leg(c, cls):
-    tape = Tape(c["tape"])
+    tape = Tape(c["tape"], c.get("hk"), c.get("res"))
     ev = build_legacy(c, tape, cls)
     try:
         r = legacylog.textFromEventDict(ev)
@@ -634,6 +730,40 @@ class _BadTb:
         raise _BadStrExc()
 
 
+class _BytesTb:
+    def getTraceback(self, *a, **kw):
+        return b"Traceback \xff\xfe"
+
+
+class _SubStrResult:
+    """str() / repr() / format() legitimately return text — an instance of a str subclass with hostile methods"""
+
+    def __str__(self):
+        return SubText("sub")
+
+    __repr__ = __str__
+
+    def __format__(self, spec):
+        return SubText("sub")
+
+    def getTraceback(self, *a, **kw):
+        return SubText("sub tb")
+
+
+class _FailureSub(Failure):
+    """a genuine Failure (subclass) whose getTraceback raises"""
+
+    def getTraceback(self, *a, **kw):
+        raise _BadStrExc()
+
+
+def _json_failure(frames):
+    """a genuine Failure as twisted.logger's JSON loader rebuilds it from a (damaged) log file"""
+    from twisted.logger._json import failureFromJSON
+    return failureFromJSON({"type": {"__module__": "builtins", "__name__": "ValueError"}, "value": "v",
+                            "parents": [], "frames": frames})
+
+
 def wild_val(code):
     kind = code.split(":")
     k = kind[0]
@@ -689,6 +819,20 @@ def wild_val(code):
         return Failure("not an exception")
     if k == "tb-badstr":
         return _BadTb()
+    if k == "tb-bytes":
+        return _BytesTb()
+    if k == "substr":
+        return SubText("sub é")
+    if k == "substr-result":
+        return _SubStrResult()
+    if k == "failure-sub":
+        return _FailureSub(ValueError("x"))
+    if k == "failure-blank":
+        return Failure.__new__(Failure)          # no attribute at all
+    if k == "failure-json":
+        return _json_failure([["f", "file.py", 1, [], []]])
+    if k == "failure-json-badframes":
+        return _json_failure([[1]] if len(kind) > 1 else 3)
     raise ValueError(code)
 
 
@@ -769,12 +913,14 @@ def describe(c):
         f = c["lformat"]
         d = {"message": c["message"], "isError": c["isError"],
              "format": None if f[0] == "_" else render_pct(f[1]) if f[0] in "sb" else f[1], "format_kind": f[0],
-             **{k: c[k] for k in ("failure", "why") if c[k] != "_"}, **{k: v for k, v in c["extras"]}, "tape": c["tape"][:6]}
+             **{k: c[k] for k in ("failure", "why") if c[k] != "_"}, **{k: v for k, v in c["extras"]}, "tape": c["tape"][:6],
+             **{k: c[k] for k in ("hk", "res") if c.get(k)}}
         return json.dumps(d, ensure_ascii=True)[:400]
     d = {k: c[k] for k in ("time", "system", "level", "ns", "failure", "fn", "flags") if c[k] != "_"}
     if c["format"][0] in "sb":
         d["log_format"] = render(c["format"][1])
     d["tape"] = c["tape"][:6]
+    d.update({k: c[k] for k in ("hk", "res") if c.get(k)})
     return json.dumps(d, ensure_ascii=True)[:400]
 
 
@@ -795,11 +941,15 @@ def tag(c, out):
         convs = "".join(sorted({sg[-1] for sg in c["lformat"][1] if sg[0] in "kp"})) if c["lformat"][0] in "sb" else ""
         base = "B" if any(o[0] == "R" and o[1] >= 9 for o in c["tape"]) else ""
         bad = "x" if any(o[0] == "R" and o[2][0] != "g" for o in c["tape"]) else ""
-        return f"leg:{kind}:{fam}:{sites}:{branch}:{convs}:{base}{bad}"
+        return f"leg:{kind}:{fam}:{sites}:{branch}:{convs}:{base}{bad}{variant_tag(c)}"
     shape = c["format"][0] + ("F" if c["flat"] != "_" else "") + ("c" if c["fn"] == "c" else "")
     base = "B" if any(o[0] == "R" and o[1] >= 9 for o in c["tape"]) else ""
     bad = "x" if any(o[0] == "R" and o[2][0] != "g" for o in c["tape"]) else ""
-    return f"{c['entry']}:{kind}:{fam}:{sites}:{shape}:{base}{bad}"
+    return f"{c['entry']}:{kind}:{fam}:{sites}:{shape}:{base}{bad}{variant_tag(c)}"
+
+
+def variant_tag(c):
+    return (":k" + "".join(sorted(set(c["hk"]))) if c.get("hk") else "") + (":" + c["res"] if c.get("res") else "")
 
 
 # ---------------------------------------------------------------------------------------- generation
@@ -898,6 +1048,83 @@ def corpus():
         leg_case(message=["h"], isError=1, failure="h", lformat=["s", [K("a")]], tape=[["T", "only message"]]),
         leg_case(message=[["t", ""]], tape=[]),
     ]
+    cs += variant_corpus()
+    return cs
+
+
+def variant_corpus():
+    """typed hostile values (model-compared), str-subclass / bytes results (oracle only), genuine Failures that cannot
+    render themselves (wild) — every guarded site once with a value a type-keyed fast path would let through"""
+    K = lambda k, cv="s", w=0: ["k", k, w, cv]
+    fld = lambda k, conv="-": ["f", ["k", k], "", conv, ["P", ""]]
+    cs = []
+    for hk in "sbfe":
+        cs += [
+            base_case(failure="h", hk=hk, tape=[R(1)]), base_case(failure="h", hk=hk, tape=[R(9, ("b", 12))]),
+            base_case(failure="h", hk=hk, tape=[["N"]]), base_case(entry="cl", failure="h", hk=hk, tape=[["T", "tb"]]),
+            base_case(system="h", hk=hk, tape=[R(12)]), base_case(ns="h", level="h", hk=hk + "o", tape=[["O"], R(9), R(1)]),
+            base_case(entry="fe", format=["s", [fld("k0"), fld("k1", "r")]], extras=[["k0", "h"], ["k1", "h"]], hk=hk,
+                      tape=[R(1), R(10), R(12), R(9)]),      # both levels of formatUnformattableEvent, safe_repr of a typed value
+            base_case(entry="fe", format=["s", [fld("k0", "s"), fld("k0", "a")]], extras=[["k0", "h"]], hk=hk,
+                      tape=[["T", "é"], ["T", "€"]]),
+            base_case(entry="unf", exc=[1, ["g", "m"]], extras=[["k0", "h"], ["k1", "h"]], hk=hk, tape=[R(1), R(9), R(12)]),
+            base_case(entry="fe", format=["s", [fld("k0")]], extras=[["k0", "h"]], flat=["d", ["h"]], hk=hk, tape=[R(9), R(1), R(12)]),
+            leg_case(isError=1, failure="h", hk=hk, tape=[R(1)]), leg_case(isError=1, failure="h", hk=hk, tape=[["N"]]),
+            leg_case(isError=1, failure="h", why="h", hk=hk, tape=[R(12), R(10, ("b", 9))]),
+            leg_case(message=["h", "h"], hk=hk + "o", tape=[R(9), ["T", "m"]]),
+            leg_case(lformat=["s", [K("a"), K("b", "r")]], extras=[["a", "h"], ["b", "h"]], hk=hk, tape=[["T", "x"], R(10), R(12), R(9)]),
+            leg_case(lformat=["s", [["p", 0, "s"]]], extras=[["a", "h"]], hk=hk, tape=[R(12), R(12)]),
+        ]
+    cs += [   # the modelled bytes value "y" / outcome "B" (b"\xff" where a text was expected) at every site
+        base_case(failure="h", tape=[["B"]]), base_case(failure="y"), base_case(entry="cl", failure="h", tape=[R(1, ("b", 9))]),
+        base_case(system="y"), base_case(system="h", tape=[["B"]]), base_case(level="y"), base_case(ns="y"),
+        base_case(level="h", ns="y", tape=[["B"]]), base_case(time=["o", "y"]), base_case(fn="c", tape=[["B"]]),
+        base_case(entry="fe", format=["s", [fld("k0"), fld("k0", "r"), fld("k0", "a"), fld("k1", "s")]],
+                  extras=[["k0", "y"], ["k1", "h"]], tape=[["B"]]),
+        base_case(entry="fe", format=["s", [["f", ["k", "k0"], "", "-", ["P", ">12"]]]], extras=[["k0", "y"]]),
+        base_case(entry="fe", format=["s", [["f", ["k", "k0"], "a", "-", ["P", ""]]]], extras=[["k0", "y"]]),
+        base_case(entry="fe", format=["s", [["f", ["k", "k0"], "aiA", "-", ["P", ""]]]], extras=[["k0", "h"]], tape=[["B"]]),
+        base_case(entry="fe", format=["s", [["f", ["c", "k0"], "", "r", ["N", "", [["k", "k1"], "", "-", ""], ""]]]],
+                  extras=[["k0", "h"], ["k1", "y"]], tape=[["B"]]),
+        base_case(entry="fe", format=["s", [fld("k0")]], extras=[["k0", "h"]], flat=["d", ["y"]]),
+        base_case(entry="fe", format=["s", [fld("k0")]], extras=[["k0", "h"]], flat=["o", "y"]),
+        base_case(entry="unf", exc=[1, ["g", "m"]], extras=[["k0", "y"], ["k1", "h"]], tape=[["B"], ["B"]]),
+        leg_case(isError=1, failure="h", why="y", tape=[["B"]]), leg_case(isError=1, failure="y", why="h", tape=[["B"]]),
+        leg_case(message=["y", "h", ["t", "m"]], tape=[["B"]]),
+        leg_case(lformat=["s", [K("a"), K("a", "r", 9), K("a", "a"), K("b")]], extras=[["a", "y"], ["b", "h"]], tape=[["B"]]),
+        leg_case(lformat=["s", [K("a", "d")]], extras=[["a", "y"]]), leg_case(lformat=["s", [["p", 0, "s"]]], extras=[["a", "y"]]),
+        leg_case(lformat=["b", [["p", 0, "r"]]], extras=[["a", "y"], ["b", "h"]], tape=[["B"]]),
+        leg_case(lformat=["o", "h"], extras=[["a", "y"]], tape=[["B"], ["B"]]),
+    ]
+    for res in ("sub", "bytes"):
+        cs += [
+            base_case(failure="h", res=res, tape=[["T", "tb"]]), base_case(entry="cl", failure="h", res=res, tape=[["N"]]),
+            base_case(system="h", res=res, tape=[["T", "sys"]]), base_case(system=["t", "sys"], res=res),
+            base_case(ns="h", level="h", res=res, tape=[["T", "name"], ["T", "ns"], ["T", "lv"]]),
+            base_case(ns=["t", "ns"], level="h", res=res, tape=[["T", "name"]]),
+            base_case(fn="c", res=res, tape=[["T", "now"]]), base_case(entry="cl", fn="c", time="good", res=res, tape=[["N"]]),
+            base_case(time=["o", ["t", "x"]], res=res),
+            base_case(entry="fe", format=["s", [fld("k0", "s"), fld("k1", "r"), fld("k2")]], res=res,
+                      extras=[["k0", "h"], ["k1", "h"], ["k2", ["t", "v"]]], tape=[["T", "a"], ["T", "b"]]),
+            base_case(entry="fe", format=["s", [fld("k0")]], extras=[["k0", "h"]], flat=["d", [["t", "flat"]]], res=res),
+            base_case(entry="unf", exc=[1, ["g", "m"]], extras=[["k0", ["t", "v"]], ["k1", "h"]], res=res, tape=[["T", "r"]]),
+            leg_case(isError=1, failure="h", why=["t", "because"], res=res, tape=[["T", "tb"]]),
+            leg_case(isError=1, failure="h", why="h", res=res, tape=[["T", "why"], ["T", "tb"]]),
+            leg_case(isError=1, failure=["t", "f"], why=["t", "because"], res=res),
+            leg_case(message=["h", ["t", "m"]], res=res, tape=[["T", "s"]]),
+            leg_case(lformat=["s", [K("a"), K("b", "r")]], extras=[["a", "h"], ["b", ["t", "v"]]], res=res, tape=[["T", "x"]]),
+            leg_case(lformat=["s", [K("why")]], why=["t", "w"], res=res),
+        ]
+    for code in WILD_FAILURES + ["substr"]:
+        cs += [
+            {"wild": 1, "entry": "eat", "flags": "111", "fmt": "x", "vals": [["log_failure", code]]},
+            {"wild": 1, "entry": "cl", "flags": "111", "fmt": "{log_failure}", "vals": [["log_failure", code], ["log_system", code]]},
+            {"wild": 1, "entry": "legacy", "message": [], "isError": 1, "fmt": None, "vals": [["failure", code]]},
+            {"wild": 1, "entry": "legacy", "message": [], "isError": 1, "fmt": None, "vals": [["failure", code], ["why", code]]},
+            {"wild": 1, "entry": "legacy", "message": [code], "isError": 0, "fmt": None, "vals": []},
+        ]
+    cs += [{"wild": 1, "entry": "legacy", "message": [], "isError": 1, "fmt": None, "vals": [["failure", "failure"], ["why", w]]}
+           for w in ("bytes", "substr", "nontext:bytes", "raise:SystemExit")]
     return cs
 
 
@@ -920,8 +1147,10 @@ def g_outcome(rng, bias=None):
     r = rng.random() if bias is None else bias
     if r < 0.40:
         return ["T", g_text(rng)]
-    if r < 0.50:
+    if r < 0.47:
         return ["N"]
+    if r < 0.52:
+        return ["B"]
     if r < 0.70:
         return ["O"]
     ci, sp = g_exc(rng)
@@ -930,7 +1159,7 @@ def g_outcome(rng, bias=None):
 
 def g_val(rng, p_h=0.5):
     r = rng.random()
-    return "h" if r < p_h else "n" if r < p_h + 0.15 else ["t", g_text(rng)]
+    return "h" if r < p_h else "n" if r < p_h + 0.11 else "y" if r < p_h + 0.18 else ["t", g_text(rng)]
 
 
 def g_oval(rng, p_abs=0.4, p_h=0.5):
@@ -1008,7 +1237,7 @@ def g_case(rng):
            else ["o", "h"] if r < 0.90 else ["n"] if r < 0.95 else ["_"])
     r = rng.random()
     time = "_" if r < 0.3 else "n" if r < 0.4 else "good" if r < 0.6 else rng.choice(["nan", "huge", "big"]) if r < 0.75 \
-        else ["o", ["t", g_text(rng)]] if r < 0.88 else ["o", "h"]
+        else ["o", ["t", g_text(rng)]] if r < 0.86 else ["o", "y"] if r < 0.89 else ["o", "h"]
     extras = [[k, g_val(rng, 0.6)] for k in ["k0", "k1", "k2", "k3"] if rng.random() < 0.6]
     flat = "_"
     if rng.random() < 0.12:
@@ -1025,13 +1254,33 @@ def g_case(rng):
     if entry == "unf":
         ci, sp = g_exc(rng)
         c["exc"] = [ci, sp]
+    return g_variant(rng, c)
+
+
+HK = ["s", "f", "b", "e", "sf", "fs", "sbfe", "fsbe", "efbs", "bsef", "os", "of"]
+
+
+def g_variant(rng, c):
+    """30 %: the hostile event values are instances of str / bytes / Failure / Exception subclasses (model-compared:
+    the model's single hostile value stands for all of them); 12 %: texts are str-subclass instances with hostile
+    methods, or undecodable bytes stand where a text / None was expected (oracle only)"""
+    r = rng.random()
+    if r < 0.30:
+        c["hk"] = rng.choice(HK)
+    elif r < 0.42:
+        c["res"] = rng.choice(["sub", "bytes"])
+        if rng.random() < 0.4:
+            c["hk"] = rng.choice(HK)
     return c
 
 
 WILD_VALS = ["none", "int", "str", "bytes", "float", "nan", "inf", "huge", "neg", "list", "dict", "self", "level", "fn", "badfn",
              "raise:ValueError", "raise:KeyboardInterrupt", "raise:SystemExit", "raise:GeneratorExit", "raise:HostileBase",
              "raise:RecursionError", "raise:MemoryError", "raise:StopIteration", "nontext:int", "nontext:bytes",
-             "failure", "failure-badexc", "failure-notb", "failure-str"]
+             "failure", "failure-badexc", "failure-notb", "failure-str",
+             "tb-bytes", "substr", "substr-result", "failure-sub", "failure-blank", "failure-json", "failure-json-badframes",
+             "failure-json-badframes:short"]
+WILD_FAILURES = [v for v in WILD_VALS if v.startswith("failure") or v.startswith("tb-")] + ["tb-badstr", "substr-result"]
 WILD_TOK = ["{", "}", "{{", "}}", "!", ":", ".", "[", "]", "()", "a", "b", "c", "0", "1", "r", "s", ">", "5", " ", "é", "log_time",
             "{a}", "{b!r}", "{c.x}", "{a()}", "{b[0]}", "{a:>5}", "{0}", "{}", "{a.real}", "{b:{c}}", "%s", "%(a)s"]
 
@@ -1046,7 +1295,7 @@ def g_wild(rng):
     vals = [[k, rng.choice(WILD_VALS)] for k in ["a", "b", "c"] if rng.random() < 0.8]
     for k in ["log_time", "log_system", "log_level", "log_namespace", "log_failure", "log_flattened", "log_logger", "log_source"]:
         if rng.random() < 0.45:
-            vals.append([k, rng.choice(WILD_VALS)])
+            vals.append([k, rng.choice(WILD_FAILURES if k == "log_failure" and rng.random() < 0.5 else WILD_VALS)])
     c = {"wild": 1, "entry": rng.choice(["eat", "eat", "cl", "fe", "unf"]), "flags": "".join(rng.choice("011") for _ in range(3)),
          "fmt": fmt, "vals": vals}
     if c["entry"] == "unf":
@@ -1058,7 +1307,8 @@ LEGACY_TOK = ["%(a)s", "%(b)r", "%(c)d", "%(zz)s", "%", "%s", "x", " ", "%(a)5.2
 
 
 def g_legacy(rng):
-    vals = [[k, rng.choice(WILD_VALS + ["tb-badstr"])] for k in ["a", "b", "c", "failure", "why"] if rng.random() < 0.6]
+    vals = [[k, rng.choice(WILD_FAILURES if k == "failure" and rng.random() < 0.5 else WILD_VALS + ["tb-badstr"])]
+            for k in ["a", "b", "c", "failure", "why"] if rng.random() < 0.6]
     return {"wild": 1, "entry": "legacy", "isError": rng.choice([0, 1, 1]),
             "message": [rng.choice(WILD_VALS) for _ in range(rng.choice([0, 0, 0, 1, 2]))],
             "fmt": None if rng.random() < 0.4 else "".join(rng.choice(LEGACY_TOK) for _ in range(rng.randint(0, 5))),
@@ -1077,7 +1327,7 @@ def g_ltext(rng):
 
 def g_lval(rng, p_h=0.6):
     r = rng.random()
-    return "h" if r < p_h else "n" if r < p_h + 0.12 else ["t", g_ltext(rng)]
+    return "h" if r < p_h else "n" if r < p_h + 0.09 else "y" if r < p_h + 0.16 else ["t", g_ltext(rng)]
 
 
 def g_psegs(rng):
@@ -1104,11 +1354,12 @@ def g_leg(rng):
     tape = [g_outcome(rng) for _ in range(rng.choice([0, 1, 2, 3, 4, 6, 8]))]
     if rng.random() < 0.35:
         tape = [["T", g_ltext(rng)] if rng.random() < 0.7 else ["O"] for _ in range(rng.randint(1, 5))] + tape
-    return leg_case(message=[g_lval(rng) for _ in range(rng.choice([0, 0, 0, 0, 1, 2, 3]))],
-                    isError=rng.choice([0, 0, 1]), lformat=f,
-                    failure="_" if rng.random() < 0.45 else g_lval(rng, 0.7),
-                    why="_" if rng.random() < 0.5 else g_lval(rng, 0.5),
-                    extras=[[k, g_lval(rng)] for k in ["a", "b", "c"] if rng.random() < 0.6], tape=tape)
+    return g_variant(rng, leg_case(
+        message=[g_lval(rng) for _ in range(rng.choice([0, 0, 0, 0, 1, 2, 3]))],
+        isError=rng.choice([0, 0, 1]), lformat=f,
+        failure="_" if rng.random() < 0.45 else g_lval(rng, 0.7),
+        why="_" if rng.random() < 0.5 else g_lval(rng, 0.5),
+        extras=[[k, g_lval(rng)] for k in ["a", "b", "c"] if rng.random() < 0.6], tape=tape))
 
 
 def generate(rng, tier):
@@ -1120,10 +1371,10 @@ def generate(rng, tier):
 
 def search(rng, tier, disagreeing):
     """property-directed: every formatting site × every outcome kind × entry points, with a benign event text"""
-    outs = [["T", "t"], ["N"], ["O"]] + [["R", ci, sp] for ci in RAISABLE for sp in (["g", "m"], ["b", 9], ["b", 1], ["x"])]
+    outs = [["T", "t"], ["N"], ["O"], ["B"]] + [["R", ci, sp] for ci in RAISABLE for sp in (["g", "m"], ["b", 9], ["b", 1], ["x"])]
     for entry in ("eat", "cl"):
         for o in outs:
-            for o2 in outs[:3] + outs[3::7]:
+            for o2 in outs[:4] + outs[4::7]:
                 yield base_case(entry=entry, system="h", tape=[o])
                 yield base_case(entry=entry, level="h", tape=[o, o2])
                 yield base_case(entry=entry, ns="h", tape=[o])
@@ -1140,7 +1391,7 @@ def search(rng, tier, disagreeing):
             yield base_case(entry=entry, ns=v)
     K = lambda k, cv="s", w=0: ["k", k, w, cv]
     for o in outs:
-        for o2 in outs[:3] + outs[3::7]:
+        for o2 in outs[:4] + outs[4::7]:
             for cv in "sra":
                 yield leg_case(lformat=["s", [K("a", cv)]], extras=[["a", "h"]], tape=[o, o2, o])
                 yield leg_case(lformat=["s", [["p", 0, cv]]], extras=[["a", "h"]], tape=[o, o2, o])
@@ -1153,6 +1404,18 @@ def search(rng, tier, disagreeing):
     for v in ["n", ["t", ""], ["t", "x"], "h"]:
         yield leg_case(isError=1, failure=v)
         yield leg_case(isError=1, failure="h", why=v)
+    for c in variant_corpus():
+        yield c
+    for hk in "sbfe":       # every guarded site x outcome kind once more, with typed hostile values
+        for o in outs:
+            for entry in ("eat", "cl"):
+                yield base_case(entry=entry, system="h", hk=hk, tape=[o])
+                yield base_case(entry=entry, level="h", ns="h", hk=hk, tape=[o, o, o])
+                yield base_case(entry=entry, failure="h", hk=hk, tape=[o])
+            yield base_case(entry="unf", exc=[1, ["g", "m"]], extras=[["k0", "h"]], hk=hk, tape=[outs[4], o])
+            yield leg_case(isError=1, failure="h", why="h", hk=hk, tape=[o, o])
+            yield leg_case(message=["h"], hk=hk, tape=[o])
+            yield leg_case(lformat=["s", [K("a")]], extras=[["a", "h"]], hk=hk, tape=[o, o, o])
     for _ in range(3000 if tier == "quick" else 20000):
         yield g_case(rng) if rng.random() < 0.7 else g_leg(rng)
 
@@ -1171,6 +1434,13 @@ def shrink(c):
             for i in range(len(c["fmt"])):
                 yield {**c, "fmt": c["fmt"][:i] + c["fmt"][i + 1:]}
         return
+    if c.get("hk"):
+        yield {k: v for k, v in c.items() if k != "hk"}
+        if len(c["hk"]) > 1:
+            for ch in sorted(set(c["hk"])):
+                yield {**c, "hk": ch}
+    if c.get("res"):
+        yield {k: v for k, v in c.items() if k != "res"}
     if c["entry"] == "leg":
         for k in ("failure", "why"):
             if c[k] != "_":
